@@ -1,7 +1,7 @@
 //! C14 - flushed file data survives a power cut
 use crate::dev::{MemDev, Store};
 use crate::gen::{self, Case, GenCfg, K};
-use crate::ops::{Aspect, FlushEvent, Run, RunCfg};
+use crate::ops::{Aspect, FlushEvent, Op, Run, RunCfg};
 use crate::refdec;
 use crate::run::{self, Block, CaseOut, Failure, Report, Tier};
 use crate::session::{self, guard, Caught, Clock, MountOpts, Session};
@@ -192,6 +192,9 @@ pub fn eval(case: &Case) -> CaseOut {
         out.classes.insert("cases_with_flush_point".into(), 1);
     }
     out.classes.insert(format!("cases_fat{}", vol.fat), 1);
+    if run.trace.has("fault_fired") {
+        out.classes.insert("cases_with_fault_fired".into(), 1);
+    }
     let _ = session::NSLOTS;
     out
 }
@@ -202,7 +205,7 @@ pub fn replay(v: &serde_json::Value) -> Result<Option<String>, String> {
 }
 
 pub fn run(tier: Tier, seed: u64) -> i32 {
-    let rule = "random histories with flush points (File::flush or handle drop) followed by operations that may touch siblings but not the flushed file or its ancestors; the device records every write with its data and every flush; for each flush point F: a device flush must follow the last write of F, and for EVERY prefix P >= F of the subsequent device-write sequence (until the file or an ancestor is next modified, removed or renamed) the image 'base + writes[..P]' is decoded by refdec and remounted by the library: the file is found under its name with exactly the flushed content; non-trivial = a flush point with >= 5 later device writes and a target of >= 2 clusters; distinct by hash(config, ops)";
+    let rule = "random histories with flush points (File::flush or handle drop) followed by operations that may touch siblings but not the flushed file or its ancestors; the device records every write with its data and every flush; for each flush point F: a device flush must follow the last write of F, and for EVERY prefix P >= F of the subsequent device-write sequence (until the file or an ancestor is next modified, removed or renamed) the image 'base + writes[..P]' is decoded by refdec and remounted by the library: the file is found under its name with exactly the flushed content; plus the same histories with a transient fault at every device call of their first explicit flush() followed by a retry of that flush (a flush point exists only where flush() returned successfully); non-trivial = a flush point with >= 5 later device writes and a target of >= 2 clusters; distinct by hash(config, ops)";
     let mut rep = Report::new("C14", tier, seed, "fault_enumeration", rule);
     rep.assume("crash model: loss of every device write after a point (write-level prefix loss with flush barriers); no torn or reordered sectors");
     rep.assume("spans longer than 120 device writes are sampled at their first 60, last 30 and ~30 strided positions");
@@ -224,6 +227,45 @@ pub fn run(tier: Tier, seed: u64) -> i32 {
     if !rep.failed() {
         let gc = gen_cfg();
         rep.add(run::run_random("random_histories_all_crash_points", seed, tier.pick(6000, 40000), "crash", move || run::boxed(gen::case_strategy(gc.clone())), |c: &Case| eval(c)));
+    }
+    // a transient storage fault at every device call of an explicit flush(); the caller retries the flush: once that
+    // retry has returned successfully the flush point holds like any other
+    if !rep.failed() {
+        let gc = gen_cfg();
+        rep.add(run::run_random("transient_fault_in_flush_then_successful_retry", seed ^ 0xF1, tier.pick(400, 6000), "crash", move || run::boxed(gen::case_strategy(gc.clone())), |c: &Case| {
+            let Some(i) = c.ops.iter().position(|o| matches!(o, Op::Flush { .. })) else {
+                let mut o = CaseOut::default();
+                o.hash = run::hash_str(&serde_json::to_string(c).unwrap_or_default());
+                o.classes.insert("histories_without_explicit_flush".into(), 1);
+                return o;
+            };
+            let mut agg = CaseOut::default();
+            agg.hash = run::hash_str(&serde_json::to_string(c).unwrap_or_default()) ^ 0xF1;
+            for k in 0..80u16 {
+                let mut ops: Vec<Op> = c.ops[..i].to_vec();
+                ops.push(Op::FaultNext { k, hold: 1 });
+                ops.push(c.ops[i].clone());
+                ops.push(c.ops[i].clone());
+                ops.extend_from_slice(&c.ops[i + 1..]);
+                let fc = Case { vol: c.vol.clone(), ops };
+                let o = eval(&fc);
+                let fired = o.classes.contains_key("cases_with_fault_fired");
+                if fired {
+                    *agg.classes.entry("fault_positions_in_flush".into()).or_insert(0) += 1;
+                    agg.nontrivial |= o.nontrivial || o.classes.get("flush_points").copied().unwrap_or(0) > 0;
+                }
+                *agg.classes.entry("crash_images_checked".into()).or_insert(0) += o.classes.get("crash_images_checked").copied().unwrap_or(0);
+                if let Some(m) = o.violation {
+                    agg.violation = Some(format!("transient fault at device call {} of the flush at step {}, flush retried: {}", k, i, m));
+                    agg.classes.insert("failing_k".into(), k as u64);
+                    return agg;
+                }
+                if !fired {
+                    break;
+                }
+            }
+            agg
+        }));
     }
     rep.finish()
 }
